@@ -8,6 +8,8 @@ pub mod c03;
 pub mod c04;
 pub mod c05;
 pub mod c06;
+pub mod c08;
+pub mod c09;
 pub mod c11;
 pub mod c12;
 pub mod c13;
@@ -15,8 +17,9 @@ pub mod c14;
 pub mod c16;
 pub mod c17;
 pub mod c18;
+pub mod c20;
 
-pub const ALL: &[&str] = &["C01", "C02", "C03", "C04", "C05", "C06", "C11", "C12", "C13", "C14", "C16", "C17", "C18"];
+pub const ALL: &[&str] = &["C01", "C02", "C03", "C04", "C05", "C06", "C08", "C09", "C11", "C12", "C13", "C14", "C16", "C17", "C18", "C20"];
 
 pub fn run(ctx: &Ctx) -> Option<Outcome> {
     Some(match ctx.id.as_str() {
@@ -27,12 +30,15 @@ pub fn run(ctx: &Ctx) -> Option<Outcome> {
         "C05" => c05::run(ctx),
         "C06" => c06::run(ctx),
         "C17" => c17::run(ctx),
+        "C08" => c08::run(ctx),
+        "C09" => c09::run(ctx),
         "C11" => c11::run(ctx),
         "C12" => c12::run(ctx),
         "C13" => c13::run(ctx),
         "C14" => c14::run(ctx),
         "C16" => c16::run(ctx),
         "C18" => c18::run(ctx),
+        "C20" => c20::run(ctx),
         _ => return None,
     })
 }
@@ -47,12 +53,15 @@ pub fn replay(id: &str, kind: &str, case: &Value) -> Option<Result<(), String>> 
         "C05" => c05::replay(kind, case),
         "C06" => c06::replay(kind, case),
         "C17" => c17::replay(kind, case),
+        "C08" => c08::replay(kind, case),
+        "C09" => c09::replay(kind, case),
         "C11" => c11::replay(kind, case),
         "C12" => c12::replay(kind, case),
         "C13" => c13::replay(kind, case),
         "C14" => c14::replay(kind, case),
         "C16" => c16::replay(kind, case),
         "C18" => c18::replay(kind, case),
+        "C20" => c20::replay(kind, case),
         _ => return None,
     })
 }
